@@ -201,17 +201,19 @@ func (bt bitmap) glyphData(gid gID, xPpem, yPpem uint16) (GlyphBitmap, error) {
 
 // look for data in 'glyf', 'CFF ' and 'CFF2' tables
 func (f *Face) outlineGlyphData(gid gID) (GlyphOutline, bool) {
-	out, err := f.glyphDataFromCFF1(gid)
+	// same order as for the extents (see glyphExtentsRaw): 'glyf' has the
+	// priority when a font also has a 'CFF ' table
+	out, err := f.glyphDataFromGlyf(gid)
+	if err == nil {
+		return out, true
+	}
+
+	out, err = f.glyphDataFromCFF1(gid)
 	if err == nil {
 		return out, true
 	}
 
 	out, err = f.glyphDataFromCFF2(gid)
-	if err == nil {
-		return out, true
-	}
-
-	out, err = f.glyphDataFromGlyf(gid)
 	if err == nil {
 		return out, true
 	}
